@@ -4,7 +4,7 @@
    the content of the data section is abstract: the encoder appends the given
    data bits, the decoder calls [decode_data], of which only "reads from the
    front" and "does not look beyond what it consumes" are assumed. *)
-From PBK Require Import Base Bits BitsProofs Frame FrameProofs.
+From PBK Require Import Base Bits BitsProofs Frame FrameProofs FrameRoundtrip.
 
 (* padding arithmetic of Encoder.process_section, every content length n >= 0,
    every edition: the padded length is a multiple of 16 bits (editions <= 3) or
@@ -202,3 +202,50 @@ Theorem C04_section2_present_processed :
     decode_sections decode_data definitions info ign idxs props1 (secs ++ [sec]) r1.
 Proof. exact section2_present_processed. Qed.
 Print Assumptions C04_section2_present_processed.
+
+(* ---- round trip ------------------------------------------------------------------ *)
+(* decoding an encoded message followed by ANY trailing bytes: same bytes, same
+   sections (index, layout, extent), same parameter values incl. every length
+   field; a to-the-end-of-section bit string (section 2 local bits) comes back
+   with its section's zero fill appended [value_matches].  Every data bit length,
+   every value that fits, editions as encoded, section 2 present or absent,
+   recomputed or honoured lengths.  Hypotheses: values fit their fields and the
+   signatures are the expected ones [sec_fits]; fewer than two surplus octets in
+   a section with descriptors [desc_fill_ok]; the template decoder consumes
+   exactly the data bits [data_ok]. *)
+Theorem C04_frame_roundtrip :
+  forall (decode_data : list (pname * pvalue) -> reader -> result (bits * reader))
+         ign json m trailing,
+  encode_message ign json = Ok m ->
+  Forall sec_fits (m_sections m) -> Forall desc_fill_ok (m_sections m) ->
+  data_ok decode_data [] (m_sections m) ->
+  exists m',
+    decode_message decode_data (Some sig_BUFR) false false (m_bytes m ++ trailing) = Ok m' /\
+    m_bytes m' = m_bytes m /\
+    Forall2 sec_matches (m_sections m) (m_sections m') /\
+    m_props m' = props_after (m_sections m) [].
+Proof. exact frame_roundtrip. Qed.
+Print Assumptions C04_frame_roundtrip.
+
+(* the same for one section of any layout made of fixed-width parameters followed
+   by at most one to-the-end parameter (all bundled layouts: config_rt_ok) *)
+Theorem C04_section_roundtrip :
+  forall (decode_data : list (pname * pvalue) -> reader -> result (bits * reader))
+         ign c vs props_e o o' props_e' sec,
+  config_rt_ok c = true -> length (s_params c) = length vs ->
+  encode_section ign c vs props_e o = Ok (o', props_e', sec) ->
+  fits_layout [] (sec_params sec) (map snd (sec_values sec)) = true ->
+  desc_fill_ok sec ->
+  exists e, o' = o ++ e /\ props_e' = add_props (s_params c) vs props_e /\
+    length e = sec_nbits sec /\
+    (forall pr, add_props (sec_params sec) (map snd (sec_values sec)) pr = add_props (s_params c) vs pr) /\
+    forall props_d t, data_ok_sec decode_data props_d sec ->
+      exists sec_d, decode_section decode_data c props_d (e ++ t) =
+                      Ok (sec_d, add_props (s_params c) vs props_d, t) /\
+                    sec_matches sec sec_d.
+Proof. exact section_roundtrip. Qed.
+Print Assumptions C04_section_roundtrip.
+
+Theorem C04_bundled_layouts_roundtrip_ok : forallb config_rt_ok definitions = true.
+Proof. exact definitions_rt_ok. Qed.
+Print Assumptions C04_bundled_layouts_roundtrip_ok.
